@@ -909,14 +909,15 @@ class SimFile:
                 encoding = locale.getencoding()
             self.encoding = encoding
             self.errors = errors or "strict"
-            if newline not in (None, "", "\n"):
-                raise HarnessError(f"SimFile: unsupported newline={newline!r}")
+            if newline not in (None, "", "\n", "\r\n", "\r"):
+                raise ValueError(f"illegal newline value: {newline!r}")
             self._newline = newline
         self._closefd = closefd
         self._wbuf = bytearray()
         self._rdata = None
         self._rpos = 0
         self.closed = False
+        self.newlines = None
 
     # -- helpers
     def _check(self):
@@ -945,6 +946,15 @@ class SimFile:
             self._rdata = raw
         else:
             s = raw.decode(self.encoding, self.errors)
+            seen = set()
+            if "\r\n" in s:
+                seen.add("\r\n")
+            rest = s.replace("\r\n", "")
+            if "\r" in rest:
+                seen.add("\r")
+            if "\n" in rest:
+                seen.add("\n")
+            self.newlines = None if not seen else (next(iter(seen)) if len(seen) == 1 else tuple(sorted(seen)))
             if self._newline is None:
                 s = s.replace("\r\n", "\n").replace("\r", "\n")
             self._rdata = s
@@ -1021,7 +1031,11 @@ class SimFile:
         else:
             if not isinstance(s, str):
                 raise TypeError(f"write() argument must be str, not {type(s).__name__}")
-            data = s.encode(self.encoding, self.errors)
+            if self._newline in ("\r\n", "\r"):
+                s_out = s.replace("\n", self._newline)  # as TextIOWrapper: '\n' written by the program becomes the given newline
+            else:
+                s_out = s
+            data = s_out.encode(self.encoding, self.errors)
             n = len(s)
         self._rdata = None
         self._wbuf += data
